@@ -208,6 +208,7 @@ def step (st : WSt) (ws : List String) : Option (WSt × String) :=
           | "pub", "me" :: _ => some (c0.opPubMe a)
           | "get", "me" :: "desc" :: _ => some (c0.opGetMeDesc a)
           | "get", "me" :: "sub" :: _ => some (c0.opGetMeSub a)
+          | "setsub", "me" :: _ => some (c0.opSetSubMe a (kvGet m "user") (optStr (kvGet m "mode")))
           | "newgrp", _ =>
             let o : NewGrpOpts := { auth := optStr (kvGet m "auth"), anon := optStr (kvGet m "anon"), want := kvGet m "want", priv := privArg (kvGet m "priv"), pub := privArg (kvGet m "pub"), chan := kvGet m "chan" = "1" }
             let tagArg := kvGet m "tags"
